@@ -222,7 +222,7 @@ fn mutant_case(u: &mut Choices, sz: Size) -> CaseResult {
 // ------------------------------------------------------------------------------------------------
 // stage: parser-accepted but ill-typed programs x awkward documents
 
-const ILL_TYPED: [&str; 59] = [
+const ILL_TYPED: [&str; 62] = [
     "rule r { this[ a == 1 ] exists }",
     "rule r { a[0][ k == 1 ] exists }",
     "rule r { a.*[ k == 1 ][ k == 1 ] !empty }",
@@ -281,6 +281,9 @@ const ILL_TYPED: [&str; 59] = [
     "let e = Resources.*[ Type == 'AWS::No::Such' ].Properties.a\nrule r { Resources[ keys in %e ] empty\n Resources[ keys != %e ] exists\n Resources.*[ keys == %e ] empty }",
     "let e = items[*]\nlet u = nosuch.x\nrule r { c[ keys in %e ] exists\n c[ keys == %e ] exists\n c[ keys not in %e ] exists\n c[ keys == %u ] exists }",
     "rule r { c[ keys in items ] exists\n c[ keys == nosuch ] exists\n c[ keys in a[ zz == 1 ] ] exists\n a[*][ keys == b ] exists }",
+    "rule r { resource_changes[*].change.after.a == 12345\n resource_changes[*].change.after.a in [12345, 7]\n resource_changes[*].change.after.a !exists }",
+    "rule r { resource_changes[*].change.before.a == 12345\n resource_changes[*].change.before.a in [1]\n resource_changes[*].change.before !exists\n resource_changes[*].address in ['x']\n resource_changes[*].type == a }",
+    "rule r { some resource_changes[*].change.after.* in ['x']\n resource_changes[*].change.after.a in a\n resource_changes[*].change.after in [{a: 1}]\n resource_changes[*] { change.after.a not in [2]\n change.after.a in r(5, 9) } }",
     "rule r { Resources.*.Properties { a == 12345 <<\t>> } }\nAWS::S3::Bucket { Properties.a == 12345 << >> }",
 ];
 
@@ -310,8 +313,12 @@ fn awkward_docs() -> Vec<String> {
         "{\"resource_changes\": [{\"address\": \"nodot\", \"type\": \"t\", \"change\": {\"after\": {\"a\": 2}}}], \"a\": 2}".into(),
         "{\"resource_changes\": [{\"address\": \"a.b\", \"type\": \"t\", \"change\": {\"before\": {\"a\": 2}}}], \"a\": {\"k\": 2}}".into(),
         "{\"resource_changes\": \"x\", \"a\": 2}".into(),
+        "{\"resource_changes\": [{\"address\": \"aws_s3_bucket.b\", \"type\": \"aws_s3_bucket\", \"change\": {\"after\": {\"a\": 2, \"tags\": {\"k\": \"v\"}}, \"before\": {\"a\": 3}}}, {\"address\": \"module.m.aws_s3_bucket.c\", \"type\": \"aws_s3_bucket\", \"change\": {\"after\": {\"a\": 12345}, \"before\": {\"a\": 3}}}], \"a\": [7]}".into(),
         format!("{{\"a\": \"{}\u{e9}\u{e9}\u{e9}\", \"b\": [1,", pad),
         format!("# {}\u{e9}\u{4e2d}\u{1F600}\na: [1, 2\n", pad),
+        // a value longer than the 16 KiB chunks in which the YAML emitter hands its output on
+        format!("{{\"a\": \"xy{}\", \"b\": [1]}}", "\u{e9}".repeat(9000)),
+        format!("{{\"a\": \"{}z\", \"b\": \"k\"}}", "\u{65e5}\u{672c}".repeat(6000)),
         "# only a comment\n".into(),
         "---\na: 1\n---\nb: 2\n".into(),
         "a: !Ref x\nb: !Join [',', [1, !GetAtt a.b]]\nc: !Unknown y\n".into(),
@@ -502,6 +509,34 @@ fn build_process_inputs() -> Vec<(&'static str, Vec<String>, String, String)> {
         ("payload that is not JSON", v(&["validate", "--payload"]), String::new(), "{\"rules\": [".to_string()),
         ("payload with wrong field types", v(&["validate", "--payload"]), String::new(), "{\"rules\": [1], \"data\": [2]}".to_string()),
     ];
+    // long values without a line break made of multi-byte characters, through every output path of
+    // the real binary (stdout takes long lines in partial writes: in-process buffers never do)
+    for (cname, ch) in [("2-byte", "\u{e9}"), ("3-byte", "\u{65e5}"), ("4-byte", "\u{1F600}")] {
+        for n in [3000usize, 9000, 40000] {
+            let long = format!("xy{}", ch.repeat(n));
+            let rules = "rule r1 {\n  a == \"x\"\n}\nrule r2 {\n  b == 1\n}\n".to_string();
+            let data = format!("{{\"a\": \"{}\", \"b\": 1, \"Resources\": {{\"r\": {{\"Type\": \"AWS::S3::Bucket\", \"Properties\": {{\"Name\": \"{}\"}}}}}}}}", long, long);
+            let modes: Vec<(&str, Vec<String>)> = vec![
+                ("console", val.clone()),
+                ("-o json", v(&["validate", "-r", "{R}", "-d", "{D}", "-o", "json"])),
+                ("-o yaml", v(&["validate", "-r", "{R}", "-d", "{D}", "-o", "yaml"])),
+                ("-v -p", v(&["validate", "-r", "{R}", "-d", "{D}", "-v", "-p"])),
+                ("--structured json", vals.clone()),
+                ("--structured yaml", v(&["validate", "-r", "{R}", "-d", "{D}", "--structured", "-o", "yaml", "-S", "none"])),
+                ("--structured junit", v(&["validate", "-r", "{R}", "-d", "{D}", "--structured", "-o", "junit", "-S", "none"])),
+                ("--structured sarif", v(&["validate", "-r", "{R}", "-d", "{D}", "--structured", "-o", "sarif", "-S", "none"])),
+                ("rulegen", v(&["rulegen", "-t", "{D}"])),
+            ];
+            for (m, argv) in modes {
+                let name: &'static str = Box::leak(format!("long {} value x{} {}", cname, n, m).into_boxed_str());
+                out.push((name, argv, rules.clone(), data.clone()));
+            }
+            for (m, argv) in [("parse-tree yaml", v(&["parse-tree", "-r", "{R}"])), ("parse-tree json", v(&["parse-tree", "-r", "{R}", "-j"]))] {
+                let name: &'static str = Box::leak(format!("long {} literal x{} {}", cname, n, m).into_boxed_str());
+                out.push((name, argv, format!("rule r1 {{\n  a == \"{}\"\n}}\n", long), "{}".to_string()));
+            }
+        }
+    }
     // generated: cycles among variables (scope x definition kind x cycle length x use) and among
     // rules (link kind x cycle length); names are leaked once per process (static table)
     for (name, argv, rules, data) in cycle_inputs() {
